@@ -44,6 +44,8 @@ pub enum Shape {
     Located,
     /// `@builtin(global_invocation_id) id: vec3<u32>`
     ComputeIn,
+    /// `flag: bool, mask: vec3<bool>, bits: array<bool, 2>` (private / workgroup memory only)
+    BoolMembers,
 }
 
 impl Shape {
@@ -54,6 +56,7 @@ impl Shape {
             Shape::Varying => &[VertexResult, FragmentParam, Uniform, Storage, Private, Local],
             Shape::Located => &[VertexParam, FragmentParam, FragmentResult, Storage, Workgroup, FixedArrayElem],
             Shape::ComputeIn => &[ComputeParam, Storage, Local],
+            Shape::BoolMembers => &[Workgroup, Private, HelperParam, Local, ModuleConst],
         }
     }
     fn members(self) -> &'static str {
@@ -63,6 +66,7 @@ impl Shape {
             Shape::Varying => "    @builtin(position) pos: vec4<f32>,\n    @location(0) c: vec4<f32>,\n",
             Shape::Located => "    @location(0) c: vec4<f32>,\n",
             Shape::ComputeIn => "    @builtin(global_invocation_id) id: vec3<u32>,\n",
+            Shape::BoolMembers => "    flag: bool,\n    mask: vec3<bool>,\n    bits: array<bool, 2>,\n",
         }
     }
 }
@@ -355,7 +359,7 @@ pub fn space(thorough: bool) -> Vec<Prog> {
     let mut out = sharing_space();
     out.extend(wide_types_space());
     // (1) one struct of every shape with every role subset (full power set)
-    for shape in [Shape::Plain, Shape::VertexIn, Shape::Varying, Shape::Located, Shape::ComputeIn] {
+    for shape in [Shape::Plain, Shape::VertexIn, Shape::Varying, Shape::Located, Shape::ComputeIn, Shape::BoolMembers] {
         for roles in subsets_upto(shape.roles(), usize::MAX) {
             if roles.iter().filter(|r| **r == PushConstant).count() > 1 {
                 continue;
@@ -478,7 +482,7 @@ pub fn run(tier: &str) -> i32 {
     }
     rep.traces_validated = rep.evaluations;
     rep.rule = format!(
-        "(1) one struct of each of 5 member shapes with every subset (quick: subsets of size <= 3 and the full set) of its admissible roles (uniform/storage/workgroup/private/push-constant variable, fixed/runtime array element, helper parameter, local, module-scope const value / const array element, element of an override-sized array / of an array of arrays, vertex/fragment/compute parameter, vertex/fragment result); (2) pairs of IO-shaped structs with role subsets of size <=2; (3) every nesting DAG on <= {} plain structs x one-or-no role per struct x nesting by member / by array member; (4) IO-shaped structs nested in a plain host struct; (5) entry-parameter structs shared by 2..3 entries of one stage in every adjacent / non-adjacent pattern. Two variables and two fragment entries share each struct. Programs naga rejects are outside the universe (counted in filtered_out). Oracle: reachability reference; observed: multiset of top-level struct names.",
+        "(1) one struct of each of 6 member shapes (incl. bool members in private / workgroup memory) with every subset (quick: subsets of size <= 3 and the full set) of its admissible roles (uniform/storage/workgroup/private/push-constant variable, fixed/runtime array element, helper parameter, local, module-scope const value / const array element, element of an override-sized array / of an array of arrays, vertex/fragment/compute parameter, vertex/fragment result); (2) pairs of IO-shaped structs with role subsets of size <=2; (3) every nesting DAG on <= {} plain structs x one-or-no role per struct x nesting by member / by array member; (4) IO-shaped structs nested in a plain host struct; (5) entry-parameter structs shared by 2..3 entries of one stage in every adjacent / non-adjacent pattern. Two variables and two fragment entries share each struct. Programs naga rejects are outside the universe (counted in filtered_out). Oracle: reachability reference; observed: multiset of top-level struct names.",
         if rep.thorough() { 4 } else { 3 }
     );
     let filtered: u64 = rep.filtered_out.values().sum();
